@@ -139,3 +139,6 @@ Example C17_rejections_nonvacuous :
   build gen_tabs (CList []) = Err SchemaError /\
   valid gen_tabs KPair (CList [CInt 3; CInt 0]) = false /\ valid gen_tabs KPair (CList [CInt 3]) = false /\ valid gen_tabs KPair (CList [CBool true; CInt 2]) = false.
 Proof. exact rejection_examples. Qed.
+(* what the harness reads out of the shipped files when it assembles the environments by hand is what the model's construction yields *)
+Theorem C17_shipped_descriptors_agree : (20 <= length shipped_described)%nat /\ forallb described_ok shipped_described = true.
+Proof. exact shipped_described_ok. Qed.
